@@ -166,6 +166,7 @@ package parser
 
 //@ func parser.projection
 //@   tags C04 C09 C01
+//@   requires[C10] tight: prec >= precOf(const("lexer.FlattenToken"))
 //@   linear
 //@   assigns p.curr, p.next, p.lex, fam:G_pos, fam:G_toks
 //@   requires pi: p.curr.Type == tokT(ppos) && p.next.Type == tokT(ppos + 1) && tokOK(p.curr.Type, p.curr.Value) && tokOK(p.next.Type, p.next.Value) && 0 <= p.lex.position && p.lex.position <= len(p.lex.expression) && aligned(p.lex.expression) && boundAt(p.lex.expression, p.lex.position)
